@@ -16,5 +16,7 @@ func init() {
 	alias("C02", "C02.12", "C03.11", "asynchronous writes of one goroutine keep their issue order only if every one of them is submitted with HighPriority")
 	alias("C12", "C12.9", "C17.6", "what release() pools must have been allocated for this connection")
 	alias("C12", "C12.10", "C17.7", "the listener's address is shared: its zone must never reach the pool")
+	alias("C01", "C01.11", "C12.5", "a connection's inbound ring comes from the pool: it must arrive empty or another connection's unread bytes are spliced into this stream")
+	alias("C02", "C02.13", "C12.5", "the outbound ring comes from the same pool")
 	alias("C10", "C10.6", "C09.6", "the ring half moves data with split copies")
 }
